@@ -637,6 +637,15 @@ func (t *termer) t(v ssa.Value, d int) string {
 			if x > y && !(v.Op == token.ADD && isStringType(v.Type())) {
 				x, y = y, x
 			}
+			// x + 0 (a helper instantiated with a zero argument) is x
+			if v.Op == token.ADD && !isStringType(v.Type()) {
+				if x == "0" {
+					return y
+				}
+				if y == "0" {
+					return x
+				}
+			}
 		case token.GTR:
 			return "(" + y + " < " + x + ")"
 		case token.GEQ:
